@@ -73,7 +73,7 @@ func ParseTypeRef(s string) (*TypeRef, error) {
 			}
 
 			typeListStr := s[i+1 : len(s)-1]
-			inTypeParam := false
+			depth := 0
 			started := 0
 
 			commit := func(i int) error {
@@ -89,11 +89,11 @@ func ParseTypeRef(s string) (*TypeRef, error) {
 			for i, c := range typeListStr {
 				switch c {
 				case '[':
-					inTypeParam = true
+					depth++
 				case ']':
-					inTypeParam = false
+					depth--
 				case ',':
-					if !inTypeParam {
+					if depth == 0 {
 						if err := commit(i); err != nil {
 							return nil, err
 						}
